@@ -102,25 +102,39 @@ unit = S | M S
 // in which the levels of the last two operators are swapped: the generated files
 // have the same length and differ only far from their beginning.
 func bigExprPair(rt *rapid.T) (*Spec, *Spec) {
-	nOps := ri(rt, 30, 36, "nops")
+	// (an unambiguous grammar, cheap to generate: 44-56 guarded rules; the sibling swaps the two
+	// tokens of the LAST rule, whose ids have the same number of digits)
+	n := ri(rt, 44, 56, "nrules")
 	mk := func(swap bool) *Spec {
 		g := &cfgm.G{}
-		r := cfgm.Rule{Name: "e"}
-		for i := 0; i < nOps; i++ {
-			tn := fmt.Sprintf("T%c%c", 'A'+rune(i/26), 'A'+rune(i%26))
-			g.Toks = append(g.Toks, tn)
-			lvl := i + 1
-			if swap && i == nOps-2 {
-				lvl = nOps
-			} else if swap && i == nOps-1 {
-				lvl = nOps - 1
-			}
-			r.Prods = append(r.Prods, cfgm.Prod{Terms: []cfgm.Term{{Kind: cfgm.KSym, Name: "e"}, {Kind: cfgm.KSym, Name: tn, IsTok: true}, {Kind: cfgm.KSym, Name: "e"}}, Prec: lvl})
+		for i := 0; i < n; i++ {
+			g.Toks = append(g.Toks, fmt.Sprintf("T%c%c", 'A'+rune(i/26), 'A'+rune(i%26)))
 		}
-		num := "NUM"
-		g.Toks = append(g.Toks, num)
-		r.Prods = append(r.Prods, cfgm.Prod{Terms: []cfgm.Term{{Kind: cfgm.KSym, Name: num, IsTok: true}}})
-		g.Rules = []cfgm.Rule{r}
+		tok := func(i int) cfgm.Term { return cfgm.Term{Kind: cfgm.KSym, Name: g.Toks[i], IsTok: true} }
+		start := cfgm.Rule{Name: "s"}
+		var rules []cfgm.Rule
+		for i := 0; i < n; i++ {
+			rn := fmt.Sprintf("r%c%c", 'a'+rune(i/26), 'a'+rune(i%26))
+			start.Prods = append(start.Prods, cfgm.Prod{Terms: []cfgm.Term{tok(i), {Kind: cfgm.KSym, Name: rn}}})
+			a, b := (i+3)%n, (i+7)%n
+			if i == n-1 {
+				// the differing rule sits at the end of a chain, so that its states are created in the
+				// last waves of the construction and its table rows come last
+				rules = append(rules, cfgm.Rule{Name: rn, Prods: []cfgm.Prod{{Terms: []cfgm.Term{tok(0), {Kind: cfgm.KSym, Name: "ca"}}}}})
+				chain := []string{"ca", "cb", "cc", "cd", "ce", "cf", "last"}
+				for k := 0; k+1 < len(chain); k++ {
+					rules = append(rules, cfgm.Rule{Name: chain[k], Prods: []cfgm.Prod{{Terms: []cfgm.Term{tok(k + 1), {Kind: cfgm.KSym, Name: chain[k+1]}}}}})
+				}
+				a, b = n-2, n-3
+				if swap {
+					a, b = b, a
+				}
+				rules = append(rules, cfgm.Rule{Name: "last", Prods: []cfgm.Prod{{Terms: []cfgm.Term{tok(a), tok(b)}}}})
+				continue
+			}
+			rules = append(rules, cfgm.Rule{Name: rn, Prods: []cfgm.Prod{{Terms: []cfgm.Term{tok(a), tok(b)}}, {Terms: []cfgm.Term{tok(i), tok(a), {Kind: cfgm.KOpt, Name: g.Toks[b], IsTok: true}}}}})
+		}
+		g.Rules = append([]cfgm.Rule{start}, rules...)
 		return &Spec{Fast: true, Sibling: -1, Files: map[string]string{"g.lox": g.Lox(), "u.go": strings.ReplaceAll(pgo.UserGo(g, pgo.Opts{}), "package PKGNAME", "package pkg")}}
 	}
 	return mk(false), mk(true)
@@ -466,7 +480,7 @@ func genHistory(rt *rapid.T, pool []*Spec) []Step {
 func TestC13(t *testing.T) {
 	run := ev.Start("C13")
 	defer run.Finish(t)
-	run.Rule = "a pool of order-sensitive packages (lexer specs with up to 3 modes, 8 rules per mode and overlapping ranges; grammars with up to 7 tokens, 6 rules and many generated helper rules, with and without _onBounds; a hand-written package whose actions use imported types; two sibling pairs that differ minimally - a 30-36 operator table with the levels of its last two operators swapped, a 70-120 keyword lexer with two late spellings swapped, a small lexer with two token declarations swapped - so that regenerated files keep their length and differ only far from their beginning) and rapid-generated histories over ONE directory: writeSpec(i), generate(in-process | lox binary; cwd = the directory | its parent | / ; absolute | relative path), deleteGenerated(subset), plantForeign(generated files of spec j), touchUserFile; " +
+	run.Rule = "a pool of order-sensitive packages (lexer specs with up to 3 modes, 8 rules per mode and overlapping ranges; grammars with up to 7 tokens, 6 rules and many generated helper rules, with and without _onBounds; a hand-written package whose actions use imported types; two sibling pairs that differ minimally - a 44-56 rule grammar with the two tokens of its last rule swapped, a 70-120 keyword lexer with two late spellings swapped, a small lexer with two token declarations swapped - so that regenerated files keep their length and differ only far from their beginning) and rapid-generated histories over ONE directory: writeSpec(i), generate(in-process | lox binary; cwd = the directory | its parent | / ; absolute | relative path), deleteGenerated(subset), plantForeign(generated files of spec j), touchUserFile; " +
 		"oracle: after every generate step the bytes of base.gen.go, lexer.gen.go, parser.gen.go and of the --report text equal those of a clean generation of the same spec in a fresh directory; in addition every import-free spec is regenerated repeatedly in-process (Go randomises map iteration per range statement, so repeats sample iteration orders) and must reproduce its bytes; " +
 		"non-trivial = history with a generate over stale files of a different spec and a change of process or working directory between generates; distinct by history"
 	run.Assumptions = []string{"touching a user file changes its mtime only", "the clean generation is in-process with cwd = the package directory"}
@@ -535,8 +549,17 @@ func TestC13(t *testing.T) {
 				os.WriteFile(filepath.Join(dir, n), []byte(t), 0o644)
 			}
 			var first *output
-			for k := 0; k < reps; k++ {
+			myReps := reps
+			for k := 0; k < myReps; k++ {
+				t0 := time.Now()
 				gr := loxb.Generate(dir, true)
+				if k == 0 {
+					// a budget of case COUNTS per spec, derived once from the cost of one generation
+					// (large specs get fewer repeats); never a correctness signal
+					if per := time.Since(t0); per > 0 && time.Duration(myReps)*per > 12*time.Second {
+						myReps = max(3, int(12*time.Second/per))
+					}
+				}
 				run.Eval(1)
 				run.Class("cheap-repeat")
 				o := &output{files: loxb.ReadGen(dir), report: gr.Report}
@@ -571,7 +594,7 @@ func TestC13(t *testing.T) {
 	}
 	// histories (real go list, one directory each, sequential because the working directory is process-wide)
 	canon := map[int]*output{}
-	nH := run.N(40, 300)
+	nH := run.N(30, 300)
 	f := run.Check("histories", nH, 1, func(rt *rapid.T, fail ev.FailFunc) {
 		c := &Case{Specs: pool, History: genHistory(rt, pool)}
 		d, nt := replay(run, c, canon)
